@@ -44,3 +44,13 @@ fn test_range_extremes() {
     );
     assert_eq!(render("{{ range(5, 0, -2)|list }}").unwrap(), "[5, 3, 1]");
 }
+
+#[test]
+fn test_divisibleby_zero() {
+    assert_eq!(render("{{ 42 is divisibleby(0) }}").unwrap(), "False");
+    assert_eq!(
+        render("{{ -170141183460469231731687303715884105728 is divisibleby(-1) }}").unwrap(),
+        "True"
+    );
+    assert_eq!(render("{{ 42 is divisibleby(2) }}").unwrap(), "True");
+}
